@@ -80,10 +80,33 @@ func (f *NullIfFunction) Validate(args []any) error {
 }
 
 func (f *NullIfFunction) Execute(ctx *FunctionContext, args []any) (any, error) {
-	if reflect.DeepEqual(args[0], args[1]) {
+	if nullIfEqual(args[0], args[1]) {
 		return nil, nil
 	}
 	return args[0], nil
+}
+
+// nullIfEqual compares numbers by value whatever their Go type (an int column
+// equals a float64 literal); all other values compare structurally.
+func nullIfEqual(a, b any) bool {
+	if isNumberKind(a) && isNumberKind(b) {
+		fa, errA := cast.ToFloat64E(a)
+		fb, errB := cast.ToFloat64E(b)
+		if errA == nil && errB == nil {
+			return fa == fb
+		}
+	}
+	return reflect.DeepEqual(a, b)
+}
+
+func isNumberKind(v any) bool {
+	switch reflect.ValueOf(v).Kind() {
+	case reflect.Int, reflect.Int8, reflect.Int16, reflect.Int32, reflect.Int64,
+		reflect.Uint, reflect.Uint8, reflect.Uint16, reflect.Uint32, reflect.Uint64,
+		reflect.Float32, reflect.Float64:
+		return true
+	}
+	return false
 }
 
 // GreatestFunction returns maximum value
